@@ -55,6 +55,12 @@ func runC18(in *Sx) *Sx {
 			T("noparam", X(c.Param("zz")), I64(int64(c.ParamInt("zz")))),
 			T("nocookie", X(c.Cookie("none"))),
 		)
+		// the URL may be rewritten while the request is served (a routing or rewriting middleware): the accessors
+		// answer from the query as it is now
+		if q2 := in.Field("q2"); q2 != nil {
+			c.Request().URL.RawQuery = url.Values{"q": {q2.Args()[0].Bytes()}}.Encode()
+			out = append(out, T("requery", X(c.Query("q", dstr...)), X(c.QueryTrim("q", dstr...)), I64(c.QueryInt64("q", dint64...)), B(c.QueryBool("q", dbool...))))
+		}
 		// several cookies on one response: each is its own Set-Cookie header
 		c.SetCookie(http.Cookie{Name: "first", Value: "one", Path: "/"})
 		c.SetCookie(http.Cookie{Name: "ck", Value: cv, Path: "/"})
@@ -133,7 +139,11 @@ func genC18(rng *rand.Rand, n int, tier string, emit func(*Sx)) {
 		if rng.Intn(2) == 0 {
 			db = B(rng.Intn(2) == 0)
 		}
-		emit(T("in", T("q", q), T("p", X(p)), T("c", X(c18value(rng))), T("dstr", ds), T("dint", di), T("dbool", db)))
+		in := T("in", T("q", q), T("p", X(p)), T("c", X(c18value(rng))), T("dstr", ds), T("dint", di), T("dbool", db))
+		if rng.Intn(5) == 0 {
+			in.List = append(in.List, T("q2", X(c18value(rng))))
+		}
+		emit(in)
 	}
 }
 
